@@ -3,7 +3,7 @@
 # Confirms a seeded change in a scratch worktree (compiles, 237 tests pass, demo passes on the
 # unmodified binary and fails on the patched one) and stores it under /verif/seeded/<seed-id>/.
 out="$1"; i="$2"; id="$3"
-WT=/tmp/confirm_wt
+WT=${CONFIRM_WT:-/tmp/confirm_wt}
 export CARGO_NET_OFFLINE=true
 if [ ! -d $WT ]; then git -C /repo worktree add -q --detach $WT HEAD || exit 3; mkdir -p $WT/.hg; fi
 cd $WT || exit 3
